@@ -18,6 +18,9 @@ func main() {
 	}
 	switch os.Args[1] {
 	case "vc":
+		if r := os.Getenv("GOVC_REPO"); r != "" {
+			repoRoot = r
+		}
 		cmdVC(os.Args[2:])
 	case "check":
 		os.Exit(cmdCheck(os.Args[2:]))
@@ -26,6 +29,9 @@ func main() {
 	case "selftest":
 		os.Exit(cmdSelftest(os.Args[2:]))
 	case "ssa":
+		if r := os.Getenv("GOVC_REPO"); r != "" {
+			repoRoot = r
+		}
 		cmdSSA(os.Args[2:])
 	default:
 		fmt.Fprintln(os.Stderr, "unknown command", os.Args[1])
